@@ -388,3 +388,34 @@ ROUND7 = {
 for _k, _v in ROUND7.items():
     if _k in CLAIMS:
         CLAIMS[_k]['text'] += '  Round 7: ' + _v
+
+# what round 8 added to each claim (DESIGN.md section 13.11)
+ROUND8 = {
+    'C01': 'decoder::load bounds the operands by the end of the range it decodes; a count read from the font is never left without its array on a success return; '
+           'the answer of every sfnt helper with out-parameters is consumed.',
+    'C02': 'FeatureRef::applyValToFeature interpreted on exact-size destinations (shared with C18); the attribute stride of newSlot is the per-slot size, also with tracing compiled in; '
+           'a hand-over through a call result is void where that result is null (OWNLOCAL).',
+    'C03': 'addLineEnd + delLineEnd interpreted: the marker goes in and out without a trace; the hinted-advance sentinel may not be a NaN.',
+    'C04': 'Machine::run + collectGarbage interpreted on every loadable NEXT / DELETE / INSERT program: every slot an action deletes is handed back to the segment (defect F23, repaired; F24 recorded); '
+           'the PUT_COPY handler interpreted; the analyser never takes the DELETE mark back.',
+    'C05': 'appendSlot fills the char-info on every path but allocation failure; justify gives the segment its own ends back (shared with C19); PUT_COPY leaves a live slot (shared with C04).',
+    'C06': 'Pass::runFSM interpreted on a three-state machine; INSERT / DELETE handlers (shared with C03); Slot::finalise with symbolic floats: a shift moves the glyph and not its advance; '
+           'who may read the direction of the text.',
+    'C07': 'both epilogues free a deleted slot found in the hand-back cell; sibling derivations of _data use the reallocating constructor\'s layout; a handler that resets sp to the stack base.',
+    'C08': 'no out-parameter of a refused sfnt helper goes into a cached glyph; the attribute stride with a logger attached.',
+    'C09': 'the tracing build\'s global json logger is the one tabled exception of the declaration-level NOGLOBAL.',
+    'C10': 'the acceptance bound of the glyph attribute count as a linear form; the file face reads exactly the directory length; a cached cmap of well-formed tables is usable.',
+    'C11': 'the decoding loop of gr_make_seg (shared with C12).',
+    'C12': 'the caller\'s nChars reaches the decoding loop unchanged.',
+    'C13': 'the sub-table gates interpreted on every well-formed table of the agreement run; be::swap in the narrowing census; the two users of the pseudo-glyph map agree (interpreted).',
+    'C14': 'overrun_copy measured against align() itself.',
+    'C15': 'Slot::finalise with symbolic floats: the run with a font computes scale times the design-unit run (hinted: plus the hinting difference); justify converts the width before any unit-dependent read.',
+    'C16': 'Code copy / assignment interpreted: exactly one owner; destructor releases do not depend on other members; gr_start_logging stops the running log first (tracing build).',
+    'C17': 'Zones::initialise interpreted on re-used sets; mergeSlot places the limit window of axis i at that axis\' form of the offset; every resolveCollisions call scans from an end of the range.',
+    'C18': 'applyValToFeature interpreted; utf16::validate interpreted on label strings; implicit sign-extending widenings are tabled; TAGNORM also on the tracing build of the API units.',
+    'C19': 'the json contexts of the tracing justify are balanced on every path; positionSlots compares the direction as a truth value; justification space widens the advance one for one (symbolic finalise).',
+    'C20': 'gr_str_to_tag interpreted on exact-size buffers whatever its form; TAGNORM also on the tracing build of the API units.',
+}
+for _k, _v in ROUND8.items():
+    if _k in CLAIMS:
+        CLAIMS[_k]['text'] += '  Round 8: ' + _v
